@@ -176,6 +176,11 @@ def plan(prop):
             obs.append((core, lambda ctx, g=groups: co.ob_registry_step(ctx, g)))
         for groups in (((1,), (2,), (2, 1)) if Q else ((1,), (2,), (2, 1), (3,), (2, 2))):
             obs.append((core, lambda ctx, g=groups: co.ob_registry_ctx_step(ctx, g)))
+    if prop == 'C02':
+        for n in (1, 2):
+            obs.append((core, lambda ctx, n=n: co.ob_insertion_step(ctx, n)))
+        for n in ((1, 2) if Q else (1, 2, 3)):
+            obs.append((core, lambda ctx, n=n: co.ob_ctx_from_solution(ctx, n)))
     if prop == 'C17':
         for n, mp in (((2, 1), (2, 2), (3, 2)) if Q else ((2, 1), (2, 2), (3, 1), (3, 2), (3, 3))):
             obs.append((core, lambda ctx, n=n, mp=mp: co.ob_dbscan(ctx, n, mp)))
